@@ -198,6 +198,13 @@ struct DAlloc // deferred-format, copy constructor allocates
   std::string s;
   std::vector<int> v;
 };
+struct DThrow // deferred-format type whose copy constructor throws: a log call that fails after its size pass
+{
+  int32_t a{0};
+  DThrow() = default;
+  DThrow(DThrow const&) { throw std::runtime_error("copy-throws"); }
+  DThrow& operator=(DThrow const&) = default;
+};
 struct Dir // direct-format type
 {
   int32_t a;
@@ -254,6 +261,12 @@ struct fmtquill::formatter<vt::DNon>
   }
 };
 template <>
+struct fmtquill::formatter<vt::DThrow>
+{
+  constexpr auto parse(format_parse_context& ctx) { return ctx.begin(); }
+  auto format(vt::DThrow const& d, format_context& ctx) const { return fmtquill::format_to(ctx.out(), "DT<{}>", d.a); }
+};
+template <>
 struct fmtquill::formatter<vt::DAlloc>
 {
   constexpr auto parse(format_parse_context& ctx) { return ctx.begin(); }
@@ -277,6 +290,7 @@ template <> struct quill::Codec<vt::DTriv> : quill::DeferredFormatCodec<vt::DTri
 template <> struct quill::Codec<vt::DNon> : quill::DeferredFormatCodec<vt::DNon> {};
 template <> struct quill::Codec<vt::DAlloc> : quill::DeferredFormatCodec<vt::DAlloc> {};
 template <> struct quill::Codec<vt::Dir> : quill::DirectFormatCodec<vt::Dir> {};
+template <> struct quill::Codec<vt::DThrow> : quill::DeferredFormatCodec<vt::DThrow> {};
 
 namespace vh
 {
@@ -590,6 +604,21 @@ struct H
     cur().cache_after = cache_len();
   }
   void mutated() { cur().mutated = 1; }
+  // history: an earlier log call of this thread that did NOT complete - its size pass cached two string lengths, then the copy
+  // of an argument threw. Not judged itself; the statement after it is.
+  void history()
+  {
+    if (!tl_has_ctx) return;
+    ++tl_quiet;
+    try
+    {
+      vt::DThrow const boom;
+      char const* stale = "a-string-whose-length-was-cached-by-a-call-that-failed";
+      LOG_INFO(logger, "hist {} {} {}", stale, "second", boom);
+    }
+    catch (std::exception const&) {}
+    --tl_quiet;
+  }
 
   // ask the backend thread to drain this thread's queue; records the consumed bytes
   void poll_now()
